@@ -172,11 +172,20 @@ def impl_prop(name, params, box):
     fct = getattr(P, "compute_domains_" + name)
     d = np.array(box, dtype=np.int32).reshape((-1, 2))
     p = np.array(params, dtype=np.int32)
+    if PROP_HANGS.get(name, 0) >= 3:
+        return "hang", None  # non-termination of this algorithm is established; further calls would only cost time
     try:
-        st = int(fct(d, p))
+        with guard(5):
+            st = int(fct(d, p))
     except IndexError:
         return "oob", None
+    except Hang:
+        PROP_HANGS[name] = PROP_HANGS.get(name, 0) + 1
+        return "hang", None
     return st, [(int(a), int(b)) for a, b in d]
+
+
+PROP_HANGS = {}
 
 
 def complexity_key(alg_idx, n, params):
